@@ -147,6 +147,9 @@ pub fn exec(case: &ThrCase) -> RunOut {
             for (k, v) in r.counters {
                 out.count(&k, v);
             }
+            for h in &r.schedule_hashes {
+                digest.u64(*h);
+            }
             out.fps.extend(r.schedule_hashes);
             if let Some((detail, class)) = r.failure {
                 out.violate(sig(&fam, "concurrent_queries", &class, "schedule"), detail);
